@@ -782,6 +782,18 @@ def c03_contents(rng, quick):
         kind = rng.choice(kinds[:3])
         out.append(('multi-%s%s-%s-%d' % ('+'.join(names), '+fat' if fat else '', kind, n),
                     overlay(background(kind, n, rng), names, rng, fat)))
+    # near misses: a signature with one bit flipped or its last byte missing must not be recognised
+    for nm in SIG_NAMES:
+        for j in range(2 if quick else 6):
+            n = 40 * K if nm == 'iso' else rng.choice([600, 1024])
+            good = overlay(bytes(n), [nm], rng)
+            off, sig = images.SIGNATURES[nm][0]
+            if nm == 'iso':
+                sig = good[off:off + 5]
+            b = bytearray(good)
+            pos = off + (len(sig) - 1 if j == 0 else rng.randrange(len(sig)))
+            b[pos] ^= 1 << (0 if j == 0 else rng.randrange(8))
+            out.append(('near-%s-%d' % (nm, j), bytes(b)))
     # compatible pairs/triples built on purpose (one offset-0 signature + vdi + gpt + iso)
     zero_sigs = ['qcow2', 'qed', 'vhd', 'vhdx', 'vmdk', 'luks']
     for z in zero_sigs:
